@@ -12,6 +12,7 @@ import Proofs.SliceTuple
 import Proofs.Hyperslab
 import Props.C03
 import Proofs.DmrDemo
+import Proofs.DapSrc
 namespace Pydap.C10
 open Pydap Pydap.Dap4 Pydap.Dmr Pydap.Dap4Index
 
@@ -220,5 +221,90 @@ example : ∀ s ∈ proxy4Slices [5] [Idx.sl ⟨some 1, some 4, some 2⟩], Norm
   rw [e] at hs
   exact ⟨1, 4, 2, by simpa using hs, by decide, by decide, by decide⟩
 example : selInt 5 (-2) = some 3 := by decide
+
+/-! ### the tie by translation: the *source text* of the chunk-header decoding computes the model
+
+`Pydap.Gen.src_…` (PydapModel/Generated/DapSrc.lean) are MiniPy syntax trees regenerated from `handlers/dap.py` on
+every run by `harness/py2lean.py`; `runItem env body x` interprets a block and returns the value bound to `x`
+(`@ret0/1/2` stand for the returned tuple). `chunk_header` (a numpy uint32 in the Python) is a non-negative int. -/
+
+open MiniPy in
+/-- `decode_chunktype`, the whole function body, on a host of either byte order and for *every* non-negative
+    chunk type (also beyond the 8-bit field): the returned `(last_chunk, error, endian)` is `decodeChunkType` -/
+theorem C10_source_decode_chunktype (hostLittle : Bool) (t : Nat) :
+    runItem (chunktypeEnv hostLittle t) Gen.src_decode_chunktype "@ret0"
+      = .ok (.bool (decodeChunkType hostLittle t).last) ∧
+    runItem (chunktypeEnv hostLittle t) Gen.src_decode_chunktype "@ret1"
+      = .ok (.bool (decodeChunkType hostLittle t).error) ∧
+    runItem (chunktypeEnv hostLittle t) Gen.src_decode_chunktype "@ret2"
+      = .ok (.str (endianStr (decodeChunkType hostLittle t).little)) :=
+  src_decode_chunktype_eq hostLittle t
+
+open MiniPy in
+/-- `stream2bytearray`: `int(chunk_header & 0x00FFFFFF)` and `(chunk_header >> 24) & 0xFF` are `chunkSize` / `chunkType` -/
+theorem C10_source_stream2bytearray_fields (h : Nat) :
+    runItem [("chunk_header", .int h)] Gen.src_stream2bytearray_fields "chunk_size" = .ok (.int (chunkSize h)) ∧
+    runItem [("chunk_header", .int h)] Gen.src_stream2bytearray_fields "chunk_type" = .ok (.int (chunkType h)) :=
+  src_stream2bytearray_fields_eq h
+
+open MiniPy in
+/-- `safe_dmr_and_data`: `dmr_length` and `chunk_type` are `chunkSize` / `chunkType` of the first header -/
+theorem C10_source_safe_dmr_and_data_fields (h : Nat) :
+    runItem [("chunk_header", .int h)] Gen.src_safe_dmr_and_data_fields "dmr_length" = .ok (.int (chunkSize h)) ∧
+    runItem [("chunk_header", .int h)] Gen.src_safe_dmr_and_data_fields "chunk_type" = .ok (.int (chunkType h)) :=
+  src_safe_dmr_and_data_fields_eq h
+
+open MiniPy in
+/-- `get_endianness`: its `chunk_type` is `chunkType` -/
+theorem C10_source_get_endianness_fields (h : Nat) :
+    runItem [("chunk_header", .int h)] Gen.src_get_endianness_fields "chunk_type" = .ok (.int (chunkType h)) :=
+  src_get_endianness_fields_eq h
+
+open MiniPy in
+/-- `stream2bytearray`, one whole turn of `while offset < len(data)` with `offset` at a chunk header
+    `b0 b1 b2 b3` (any bytes before it, any bytes after it): exactly as one step of `chunkBodies` —
+    `EOFError` when fewer than `chunkSize` bytes follow the header; otherwise the recorded position is
+    `(offset + 4, chunkSize)`, `offset` advances by `4 + chunkSize`, and the loop breaks iff `last`.
+    (`last, _, _ = decode_chunktype(chunk_type)` is the one statement set aside: `last` is an input here, its value
+    is tied by `C10_source_decode_chunktype` and `chunk_type` by `C10_source_stream2bytearray_fields`.) -/
+theorem C10_source_stream2bytearray_turn (pre rest : Bytes) (b0 b1 b2 b3 : UInt8) (last : Bool) :
+    (rest.length < chunkSize (be32 b0 b1 b2 b3) →
+      exec (turnEnv (pre ++ b0 :: b1 :: b2 :: b3 :: rest) pre.length last) Gen.src_stream2bytearray_turn
+        = .error (.raised "EOFError")) ∧
+    (¬ rest.length < chunkSize (be32 b0 b1 b2 b3) →
+      runItem (turnEnv (pre ++ b0 :: b1 :: b2 :: b3 :: rest) pre.length last) Gen.src_stream2bytearray_turn "@item0"
+        = .ok (.int ((pre.length + 4 : Nat) : Int)) ∧
+      runItem (turnEnv (pre ++ b0 :: b1 :: b2 :: b3 :: rest) pre.length last) Gen.src_stream2bytearray_turn "@item1"
+        = .ok (.int (chunkSize (be32 b0 b1 b2 b3) : Nat)) ∧
+      runItem (turnEnv (pre ++ b0 :: b1 :: b2 :: b3 :: rest) pre.length last) Gen.src_stream2bytearray_turn "offset"
+        = .ok (.int ((pre.length + 4 + chunkSize (be32 b0 b1 b2 b3) : Nat) : Int)) ∧
+      runItem (turnEnv (pre ++ b0 :: b1 :: b2 :: b3 :: rest) pre.length last) Gen.src_stream2bytearray_turn "@break"
+        = .ok (.bool last)) :=
+  src_stream2bytearray_turn_eq pre rest b0 b1 b2 b3 last
+
+open MiniPy in
+/-- … and with fewer than four bytes left at `offset` the turn raises `EOFError` (the model's 1..3-byte case) -/
+theorem C10_source_stream2bytearray_turn_short (pre tail : Bytes) (last : Bool) (ht : tail.length < 4) :
+    exec (turnEnv (pre ++ tail) pre.length last) Gen.src_stream2bytearray_turn = .error (.raised "EOFError") :=
+  src_stream2bytearray_turn_short pre tail last ht
+
+open MiniPy in
+example : runItem (turnEnv [9, 9, 5, 0, 0, 2, 7, 8, 1] 2 true) Gen.src_stream2bytearray_turn "offset"
+    = .ok (.int 8) := by rfl
+set_option maxRecDepth 100000 in
+open MiniPy in
+example : exec (turnEnv [5, 0, 0, 2, 7] 0 true) Gen.src_stream2bytearray_turn = .error (.raised "EOFError") := by decide
+
+-- non-vacuity: header 0x05000007 (flags last+little, size 7) through the translated source
+open MiniPy in
+example : runItem [("chunk_header", .int 83886087)] Gen.src_stream2bytearray_fields "chunk_size" = .ok (.int 7) := by decide
+open MiniPy in
+example : runItem [("chunk_header", .int 83886087)] Gen.src_stream2bytearray_fields "chunk_type" = .ok (.int 5) := by decide
+open MiniPy in
+example : runItem (chunktypeEnv true 5) Gen.src_decode_chunktype "@ret0" = .ok (.bool true) ∧
+          runItem (chunktypeEnv true 5) Gen.src_decode_chunktype "@ret1" = .ok (.bool false) ∧
+          runItem (chunktypeEnv true 5) Gen.src_decode_chunktype "@ret2" = .ok (.str [60]) := by decide
+open MiniPy in
+example : runItem (chunktypeEnv false 1) Gen.src_decode_chunktype "@ret2" = .ok (.str [60]) := by decide
 
 end Pydap.C10
